@@ -35,7 +35,7 @@ from spyne.error import ValidationError
 from spyne.error import ResourceNotFoundError
 
 from spyne.model import ByteArray, File, Fault, ComplexModelBase, Array, Any, \
-    AnyDict, Uuid, Unicode
+    AnyDict, Uuid, Unicode, Decimal
 
 from spyne.protocol.dictdoc import DictDocument
 
@@ -170,6 +170,14 @@ class HierDictDocument(DictDocument):
 
         elif issubclass(cls, Unicode) and not isinstance(inst,
                                                     self.VALID_UNICODE_SOURCES):
+            raise ValidationError([key, inst])
+
+        # types that travel as text need text. (a bool is not a number either)
+        elif inst is not None and issubclass(cls, self.stringified_types) \
+                         and not isinstance(inst, self.VALID_UNICODE_SOURCES):
+            raise ValidationError([key, inst])
+
+        elif isinstance(inst, bool) and issubclass(cls, Decimal):
             raise ValidationError([key, inst])
 
         # a container where a plain value is declared, or the other way around.
